@@ -4,3 +4,5 @@ import RaftWal.Props.C20
 #print axioms RaftWal.C20.declared_are_emitted
 #print axioms RaftWal.C20.wal_sites_as_modelled
 #print axioms RaftWal.C20.verifier_sites_as_modelled
+#print axioms RaftWal.C20.counters_exact
+#print axioms RaftWal.C20.counters_exact_mod
